@@ -183,6 +183,10 @@ def main():
                         cap = 2500 if (name == 'warm' and ia == 0 and ib in (1, 3)) else 1200 if (name, ia, ib) in thread_scenarios.DENSE else 160
                         if tier == 'quick' and len(ks) > cap:
                             ks = sorted(rng.sample(ks, cap))
+                        elif tier != 'quick' and len(ks) > 6000:
+                            # thorough: every switch point, except for values with tens of thousands of package lines (the long
+                            # string lists of the warm scenario), where 3000 are sampled
+                            ks = sorted(rng.sample(ks, 3000))
                         scheds = [(k, None) for k in ks]
                         for _ in range(12 if tier == 'quick' else 150):
                             if n and nb:
